@@ -127,13 +127,14 @@ def build_pdb(ctx, natom=2, variant="default"):
                     "extra.occupancies": occ, "extra.bfactors": bf, "extra.chainids": chain,
                     "extra.compound": "MY COMPOUND"})
     if variant in ("bonds", "star"):
-        b = [[0, natom - 1, 1]] if natom > 1 else []
+        # bonds are given in no particular order and with either atom first (a legitimate bond list)
+        b = [[natom - 1, 0, 1]] if natom > 1 else []
         if natom > 2:
-            b += [[0, 1, 2], [natom - 2, natom - 1, 1]]
+            b += [[0, 1, 2], [natom - 1, natom - 2, 1]]
         if variant == "star":
             # a hub atom bonded to every other atom (more partners than one CONECT record holds)
             b = [[0, j, 1] for j in range(1, natom)]
-        bonds = np.array(sorted(b), dtype=int).reshape(-1, 3)
+        bonds = np.array(b, dtype=int).reshape(-1, 3)
         kw["bonds"] = bonds
         # CONECT records store no bond order: every bond comes back as type 8 ('un', unknown/any)
         exp["bonds"] = np.array([[r[0], r[1], 8] for r in bonds], dtype=int).reshape(-1, 3)
@@ -162,9 +163,9 @@ def build_mol2(ctx, natom=2, variant="default"):
         b = []
         if natom > 1:
             bt = ctx.choice([1, 2, 3, 4, 5, 6, 7, 8], label="bondtype")
-            b.append([0, natom - 1, bt])
+            b.append([natom - 1, 0, bt])
         if natom > 2:
-            b += [[0, 1, 1], [natom - 2, natom - 1, 2]]
+            b += [[0, 1, 1], [natom - 1, natom - 2, 2]]
         bonds = np.array(b, dtype=int).reshape(-1, 3)
         kw["bonds"] = bonds
         exp["bonds"] = bonds
@@ -183,9 +184,9 @@ def build_sdf(ctx, natom=2, variant="default"):
         b = []
         if natom > 1:
             bt = ctx.choice([1, 2, 3, 4], label="bondtype")
-            b.append([0, natom - 1, bt])
+            b.append([natom - 1, 0, bt])
         if natom > 2:
-            b += [[0, 1, 1], [natom - 2, natom - 1, 2]]
+            b += [[0, 1, 1], [natom - 1, natom - 2, 2]]
         bonds = np.array(b, dtype=int).reshape(-1, 3)
         kw["bonds"] = bonds
         exp["bonds"] = bonds
